@@ -688,7 +688,10 @@ func checkAcc(c AccCase) vk.Verdict {
 	var sched *vk.Sched
 	var mu sync.Mutex
 	serial := 0
-	latest := map[int]string{}
+	// allowed: the bodies a hit for the key may carry - the key's latest origin response; after two requests missed the key
+	// together, either of their two responses (which of them is stored last is up to the middleware)
+	allowed := map[int]map[string]bool{}
+	inPair := false
 	app := fiber.New()
 	app.Use(cache.New(cfg))
 	app.Get("/k/:key", func(ctx fiber.Ctx) error {
@@ -697,7 +700,10 @@ func checkAcc(c AccCase) vk.Verdict {
 		serial++
 		body := fmt.Sprintf("%s:%08d", ctx.Params("key"), serial) // 1 + 1 + 8 bytes
 		k, _ := strconv.Atoi(ctx.Params("key"))
-		latest[k] = body
+		if !inPair || allowed[k] == nil {
+			allowed[k] = map[string]bool{}
+		}
+		allowed[k][body] = true
 		mu.Unlock()
 		return ctx.SendString(body)
 	})
@@ -719,6 +725,8 @@ func checkAcc(c AccCase) vk.Verdict {
 			}
 			s := vk.NewSched()
 			sched = s
+			inPair = true
+			delete(allowed, op.Key)
 			for g := 0; g < 2; g++ {
 				s.Spawn(g, func() { do(AccOp{Key: op.Key}) })
 			}
@@ -736,6 +744,7 @@ func checkAcc(c AccCase) vk.Verdict {
 				return 0
 			})
 			sched = nil
+			inPair = false
 			if len(res.Panics) > 0 || res.Deadlock {
 				return vk.Failf("op %d %+v: panics %v deadlock %v", i, op, res.Panics, res.Deadlock)
 			}
@@ -758,8 +767,11 @@ func checkAcc(c AccCase) vk.Verdict {
 			}
 			v.NonTrivial = v.NonTrivial || refreshed || paired
 		}
-		if body != latest[op.Key] {
-			return vk.Failf("op %d %+v: body %q, the key's latest origin response is %q (X-Cache=%q)", i, op, body, latest[op.Key], xc)
+		if !allowed[op.Key][body] {
+			return vk.Failf("op %d %+v: body %q, the key's latest origin response(s): %v (X-Cache=%q)", i, op, body, allowed[op.Key], xc)
+		}
+		if xc != "hit" {
+			allowed[op.Key] = map[string]bool{body: true} // stored anew: from now on this one
 		}
 		if op.NoCache && stored[op.Key] {
 			refreshed = true
